@@ -122,6 +122,11 @@ def gen_blocks(rng, fault_site):
     for b in blocks:
         if b['kind'] == 'cblock':
             b['input'] = rng.choice([x['name'] for x in blocks if x['kind'] in ('sync', 'ifv')])
+            syncs = [x['name'] for x in blocks if x['kind'] == 'sync']
+            if syncs and rng.random() < 0.5:
+                # the CBlock's output event is delivered from inside the simulation task:
+                # a failing handler there calls abort() AND raises into the simulator
+                b['fwd'] = rng.choice(syncs)
         if b['kind'] == 'repeat':
             b['dest'] = rng.choice([x['name'] for x in blocks if x['kind'] in ('sync', 'ofunc')])
     return blocks, names
@@ -490,7 +495,10 @@ def build(ctx, plan, storage):
                     kw['stop_timeout'] = b.get('stop_timeout', 1.0)
                 blk = cls(name, x_ctx=ctx, x_spec=b, **kw)
             elif kind == 'cblock':
-                blk = edzed.FuncBlock(name, func=mk_calc(name, b)).connect(b['input'])
+                kw = {}
+                if b.get('fwd'):
+                    kw['on_output'] = edzed.Event(b['fwd'], 'put')
+                blk = edzed.FuncBlock(name, func=mk_calc(name, b), **kw).connect(b['input'])
             elif kind == 'timer':
                 blk = edzed.Timer(name, t_period=b['t_period'])
             elif kind == 'oasync':
